@@ -744,14 +744,15 @@ def run(ctx):
         do_predicate(state, rng, 2500 if quick else 20000); ctx.log('predicate correspondence done (seed %d)' % sd)
         do_delaunay(state, rng, 700 if quick else 5000, corpus=(si == 0)); ctx.log('Delaunay done')
         do_constrained(state, rng, 1500 if quick else 4000, corpus=(si == 0)); ctx.log('constrained done')
-        do_voronoi(state, rng, 300 if quick else 1500); ctx.log('Voronoi done')
+        do_voronoi(state, rng, 500 if quick else 2000); ctx.log('Voronoi done')
         if state['nviol'] > 8:
             break
     ctx.cov['traces_validated_against_impl'] = ctx.cov['evaluations']
     ctx.notes['distribution'] = st
     # generator self-check: the proof-relevant families must have been drawn and must have been non-vacuous
     need = [('delaunay', 'family', 'concentric'), ('delaunay', 'family', 'collinear'), ('delaunay', 'tolerance', 'merge'),
-            ('delaunay', 'tolerance', 'sub'), ('constrained', 'holes', 'touching'), ('voronoi', 'env', 'user'), ('voronoi', 'ordered', 'yes'),
+            ('delaunay', 'tolerance', 'sub'), ('constrained', 'holes', 'touching'), ('voronoi', 'env', 'user'), ('voronoi', 'ordered', 'yes'), ('voronoi', 'edges_only', 'yes'), ('voronoi', 'env_shape', 'hstrip'),
+            ('voronoi', 'env_shape', 'vstrip'), ('voronoi', 'env_shape', 'offset'), ('voronoi', 'env_multiplier', '100'), ('voronoi', 'env_multiplier', '1000'),
             ('predicate', 'model_answer', '1'), ('predicate', 'model_answer', '0'), ('predicate', 'model_answer', '2')]
     for path in ([] if state['nviol'] > 8 else need):      # a run cut short by failures has not drawn everything
         d = st
@@ -1161,7 +1162,8 @@ def do_constrained(S, rng, n, corpus=False):
 # ------------------------------------------------------------------------------------------------ Voronoi
 CLAUSES_V = ('c1 number of cells != number of distinct sites, c2 cell ring degenerate, c3 cell not convex, c4 cell vertex outside the clip envelope, '
              'c5 own site not inside its cell, c6 a cell vertex is closer to another site, c7 area sum != envelope area, c30 cells and sites '
-             'not in one-to-one containment, c31 non-finite ordinate')
+             'not in one-to-one containment, c31 non-finite ordinate, c40 edges-only: a vertex outside the envelope or not on a Voronoi edge, '
+             'c41 edges-only: no line for two or more distinct sites')
 
 
 def eval_voronoi(S, cases, ulps=ULPS):
@@ -1186,11 +1188,14 @@ def eval_voronoi(S, cases, ulps=ULPS):
             else:
                 r['verdict'] = 'VIOLATION'; r['why'] = 'GEOSVoronoiDiagram_r returned NULL: ' + ho[:300]
             continue
-        if not ho.startswith('P') or 'BAD' in ho or ho.startswith('CRASH') or ho == 'TIMEOUT':
+        if not ho.startswith('L' if flags & 1 else 'P') or 'BAD' in ho or ho.startswith('CRASH') or ho == 'TIMEOUT':
             r['verdict'] = 'VIOLATION'; r['why'] = 'implementation failed or returned a malformed result: ' + ho[:300]; continue
         cells = [x.split() for x in ho[1:].split(';') if x.split()]
         r['ncells'] = len(cells)
-        line = 'V %d %d %s S %s G %s' % (ulps, 1 if flags & 2 else 0, ' '.join(map(str, env)) if env else '-', sites_txt(pts), ' ; '.join(' '.join(c2) for c2 in cells))
+        if flags & 1:
+            line = 'W %d %s S %s G %s' % (ulps, ' '.join(map(str, env)) if env else '-', sites_txt(pts), ' ; '.join(' '.join(c2) for c2 in cells))
+        else:
+            line = 'V %d %d %s S %s G %s' % (ulps, 1 if flags & 2 else 0, ' '.join(map(str, env)) if env else '-', sites_txt(pts), ' ; '.join(' '.join(c2) for c2 in cells))
         r['driver_line'] = line; dl.append(line); idx.append(ci)
     dout = par_lines(ctx, [S['drv']], dl, timeout=1800) if dl else []
     for ci, d in zip(idx, dout):
@@ -1257,33 +1262,65 @@ def report_voronoi(S, r):
     return 'VIOLATION'
 
 
+ENV_MULTS = [1, 1, 2, 3, 5, 10, 20, 40, 100, 300, 1000]
+ENV_SHAPES = ['centred', 'offset', 'hstrip', 'vstrip', 'corner', 'inside', 'overlap', 'disjoint']
+
+
+def gen_clip_env(rng, pts):
+    """clip envelope relative to the site extent w: m*w wide squares centred on the sites or pushed off-centre, strips that are m*w long
+    and about one site extent wide, envelopes anchored at a corner of the site box, inside it, overlapping it, or disjoint from it.
+    Returns (sites possibly translated so that everything stays within the 2^25 bound, env, shape, multiplier) or None."""
+    xs = [p[0] for p in pts]; ys = [p[1] for p in pts]
+    x0, x1, y0, y1 = min(xs), max(xs), min(ys), max(ys)
+    w = max(1, x1 - x0, y1 - y0)
+    shape = rng.choice(ENV_SHAPES); m = rng.choice(ENV_MULTS)
+    while m > 1 and (2 * m + 3) * w > 2 * LIM:
+        m = max(1, m // 3)
+    e = m * w
+    if shape == 'centred':  env = (x0 - e, y0 - e, x1 + e, y1 + e)
+    elif shape == 'offset': env = (x0 - rng.randint(0, e), y0 - rng.randint(0, e // 4 + 1), x1 + 2 * e, y1 + rng.randint(0, e))
+    elif shape == 'hstrip': env = (x0 - e, y0 - rng.randint(0, w), x1 + e, y1 + rng.randint(0, w))
+    elif shape == 'vstrip': env = (x0 - rng.randint(0, w), y0 - e, x1 + rng.randint(0, w), y1 + e)
+    elif shape == 'corner': env = (x0, y0, x1 + 2 * e, y1 + 2 * e) if rng.random() < 0.5 else (x0 - 2 * e, y0 - 2 * e, x1, y1)
+    elif shape == 'inside': env = (x0 + (x1 - x0) // 4, y0 + (y1 - y0) // 4, x1 - (x1 - x0) // 4, y1 - (y1 - y0) // 4)
+    elif shape == 'overlap': env = (x0 + w, y0 - 3 * e, x1 + 7 * e, y1)
+    else: env = (x1 + 2 * e, y1 + 2 * e, x1 + 4 * e + 1, y1 + 3 * e + 1)
+    if env[2] <= env[0] or env[3] <= env[1]:
+        env = (env[0], env[1], env[0] + 1 + max(0, env[2] - env[0]), env[1] + 1 + max(0, env[3] - env[1]))
+    lo_x, hi_x = min(x0, env[0]), max(x1, env[2]); lo_y, hi_y = min(y0, env[1]), max(y1, env[3])
+    if hi_x - lo_x > 2 * LIM or hi_y - lo_y > 2 * LIM:
+        return None
+    dx = 0 if (-LIM <= lo_x and hi_x <= LIM) else (-LIM - lo_x if lo_x < -LIM else LIM - hi_x)
+    dy = 0 if (-LIM <= lo_y and hi_y <= LIM) else (-LIM - lo_y if lo_y < -LIM else LIM - hi_y)
+    pts = [(x + dx, y + dy) for x, y in pts]
+    env = (env[0] + dx, env[1] + dy, env[2] + dx, env[3] + dy)
+    return pts, env, shape, m
+
+
 def do_voronoi(S, rng, n):
     ctx, st = S['ctx'], S['st']
-    cases = []
+    cases = []; info = {}
     for _ in range(n):
         fam, pts = make_site_case(rng, True, [f for f in SITE_FAMILIES if f != 'tiny'] + ['tiny'])
         if len(pts) > 40: pts = pts[:40]
-        flags = rng.choice([0, 0, 2])
-        if flags == 2 and rng.random() < 0.85:
+        flags = rng.choice([0, 0, 0, 2, 2, 1, 3])
+        if (flags & 2) and rng.random() < 0.85:
             pts = list(dict.fromkeys(pts))
         k = rng.choice([0, 0, 0, 1, -3, 20, -20])
-        env = None
-        if rng.random() < 0.45:
-            xs = [p[0] for p in pts]; ys = [p[1] for p in pts]
-            w = max(1, max(xs) - min(xs), max(ys) - min(ys))
-            c = rng.random()
-            if c < 0.3:   env = (min(xs) - 5 * w, min(ys) - 4 * w, max(xs) + 3 * w, max(ys) + 6 * w)       # larger than the default
-            elif c < 0.6: env = (min(xs), min(ys), max(xs), max(ys))                                     # smaller: no effect
-            elif c < 0.8: env = (min(xs) + w, min(ys) - 3 * w, max(xs) + 7 * w, max(ys))                 # overlapping
-            else:         env = (max(xs) + 2 * w, max(ys) + 2 * w, max(xs) + 4 * w, max(ys) + 3 * w)     # disjoint from the sites
-            if max(abs(v) for v in env) > 2 ** 30: env = None
+        env = None; shape = 'none'; mult = 0
+        if rng.random() < 0.6:
+            g = gen_clip_env(rng, pts)
+            if g is not None:
+                pts, env, shape, mult = g
         gt = rng.choice(['M', 'M', 'L', 'C'])
-        cases.append((fam, pts, 0, k, flags, env, gt))
+        cases.append((fam, pts, 0, k, flags, env, gt)); info[len(cases) - 1] = (shape, mult)
     res = eval_voronoi(S, cases)
-    for r in res:
+    for ci, r in enumerate(res):
         fam, pts, tol, k, flags, env, gt = r['case']
         st.inc('voronoi', 'family', fam)
+        if env: st.inc('voronoi', 'env_shape', info[ci][0]); st.inc('voronoi', 'env_multiplier', str(info[ci][1]))
         st.inc('voronoi', 'env', 'user' if env else 'default'); st.inc('voronoi', 'ordered', 'yes' if flags & 2 else 'no')
+        st.inc('voronoi', 'edges_only', 'yes' if flags & 1 else 'no')
         ctx.count(('V', r['harness_line']), r.get('ncells', 0) >= 2)
         if r['verdict'] == 'VIOLATION':
             r['verdict'] = report_voronoi(S, r)
